@@ -64,6 +64,11 @@ func rewrap(data []byte, before, after [][]byte, flags byte) []byte {
 	return riffwalk.RIFF(body...)
 }
 
+// corpusThorough selects the larger still corpus: every generator-made file
+// instead of a sample, and larger encoder-made pictures (set by C16/C17 in the
+// thorough tier and by their replays, which look files up by name).
+var corpusThorough bool
+
 // stillCorpus returns the valid still files used by C17 (every prefix) and as
 // seeds by C05 and C16.  All are small so that per-byte enumeration is exhaustive.
 func stillCorpus(seed int64, repo string) []namedFile {
@@ -112,14 +117,24 @@ func stillCorpus(seed int64, repo string) []namedFile {
 	add("hand-lossless-vp8x", rewrap(mustEncode(imgs.Make(9, 9, "c4", "binary", seed), &webp.EncoderOptions{Lossless: true, Quality: 75, Method: 4}), nil, nil, 0))
 	// generator-made files: valid streams no encoder emits (every 3rd VP8L file, every 8th key frame)
 	for i, f := range genCorpus(seed) {
-		if i%3 == 0 {
+		if i%3 == 0 || corpusThorough {
 			out = append(out, f)
 		}
 	}
 	for i, f := range vp8Corpus(seed) {
-		if i%8 == 0 {
+		if i%8 == 0 || corpusThorough {
 			out = append(out, f)
 		}
+	}
+	if corpusThorough {
+		for p := 0; p <= 3; p++ {
+			pp := p
+			add(fmt.Sprintf("lossy-70x50-part%d-m6", 1<<p), mustEncode(imgs.Make(70, 50, "regions4", "opaque", seed), lossyOpts(func(o *webp.EncoderOptions) { o.Partitions = pp; o.Method = 6; o.Quality = 60 })))
+		}
+		add("lossyalpha-70x50-late", mustEncode(imgs.Make(70, 50, "noise", "late", seed), lossyOpts(nil)))
+		add("lossless-70x50-regions", mustEncode(imgs.Make(70, 50, "regionsV", "opaque", seed), &webp.EncoderOptions{Lossless: true, Quality: 90, Method: 5}))
+		add("lossless-40x40-noise-late", mustEncode(imgs.Make(40, 40, "noise", "late", seed), &webp.EncoderOptions{Lossless: true, Quality: 75, Method: 4}))
+		add("lossless-64x64-patchwork-q100", mustEncode(imgs.Make(64, 64, "patchwork", "semi", seed), &webp.EncoderOptions{Lossless: true, Quality: 100, Method: 6}))
 	}
 	// the repository's own test files
 	if m, _ := filepath.Glob(filepath.Join(repo, "testdata", "*.webp")); len(m) > 0 {
